@@ -216,13 +216,16 @@ impl<CS: BbsCiphersuite> Signature<BBSplus<CS>> {
         update_index: usize,
         n: usize,
     ) -> Result<Self, Error> {
-        let generators = Generators::create::<CS>(n + 1, Some(CS::API_ID));
-
-        if generators.values.len() <= update_index + 1 {
+        if update_index >= n {
             return Err(Error::UpdateSignatureError(
                 "len(generators) <= update_index".to_owned(),
             ));
         }
+
+        let count = n
+            .checked_add(1)
+            .ok_or_else(|| Error::UpdateSignatureError("n too large".to_owned()))?;
+        let generators = Generators::create::<CS>(count, Some(CS::API_ID));
 
         let old_message_scalar =
             BBSplusMessage::map_message_to_scalar_as_hash::<CS>(old_message, CS::API_ID)?;
